@@ -110,6 +110,9 @@ M = [
     ('C15', 'primary-flag-inverted', 'pgpy/packet/subpackets/signature.py', "        _bytes += self.int_to_bytes(int(self.primary))", "        _bytes += self.int_to_bytes(int(not self.primary))"),
     ('C15', 'add-subkey-binds-with-wrong-primary', 'pgpy/pgp.py', "            if subject.is_primary:\n                _s = subject.subkeys[self.signer].hashdata\n\n            else:\n                _s = subject.hashdata", "            if subject.is_primary:\n                _s = subject.subkeys[self.signer].hashdata\n\n            else:\n                _s = subject.hashdata if self.type != SignatureType.PrimaryKey_Binding else subject._parent.hashdata"),
     ('C02', 'message-signature-over-decoded-text-back', 'pgpy/pgp.py', "            return bytes(self._message._contents)\n", "            return self.message\n"),
+    ('C14', 'exportable-read-from-unsigned-area-back', 'pgpy/pgp.py', "        if self._signature.subpackets['h_ExportableCertification']:\n            return bool(next(iter(self._signature.subpackets['h_ExportableCertification'])))", "        if 'ExportableCertification' in self._signature.subpackets:\n            return bool(next(iter(self._signature.subpackets['ExportableCertification'])))"),
+    ('C17', 'key-expiration-read-from-unsigned-area-back', 'pgpy/pgp.py', "        if self._signature.subpackets['h_KeyExpirationTime']:\n            return next(iter(self._signature.subpackets['h_KeyExpirationTime'])).expires", "        if 'KeyExpirationTime' in self._signature.subpackets:\n            return next(iter(self._signature.subpackets['KeyExpirationTime'])).expires"),
+    ('C16', 'preference-presence-in-any-area-back', 'pgpy/pgp.py', "        if self._signature.subpackets['h_PreferredHashAlgorithms']:", "        if 'PreferredHashAlgorithms' in self._signature.subpackets:"),
     ('C12', 'salt-remembered-from-first-derivation', 'pgpy/packet/fields.py', "            hsalt = bytes(self.salt)\n", "            hsalt = self.__dict__.setdefault('_salt_seen', bytes(self.salt))\n"),
     ('C16', 'key-flags-cached-on-first-use', 'pgpy/pgp.py', "            return {KeyFlags.Certify} | (user.selfsig.key_flags if user.selfsig else set())", "            return self.__dict__.setdefault('_flagcache', {KeyFlags.Certify} | (user.selfsig.key_flags if user.selfsig else set()))"),
     ('C16', 'enforcement-off-last-subkey-back', 'pgpy/decorators.py', "                    _key = key\n", "                    pass\n"),
